@@ -34,6 +34,9 @@ PROP = dict(
           "last write, or a descendant that holds stdout/stderr, or a never-exiting child under periodic signals, or a never-exiting child that closed one of its streams, or a caller with a closed standard descriptor. Distinct = distinct case "
           "encodings (script, payload, plan)."),
     assumptions=["SIGPIPE is ignored in the calling process (the worker sets SIG_IGN)",
+                 "where an exception is owed (check on and non-zero status; a deadline that must expire) any exception is accepted - its type and wording are "
+                 "not part of the statement (counted as owed-exception-wording:*); a quarter of the children write NUL-free text full of printf conversion "
+                 "specifications, so that a failure report that interprets the child's output shows as a crash or hang of the caller",
                  "communicate does not read stderr: with an unread stderr pipe the child writes at most 16 KiB to it, otherwise stderr goes to a file",
                  "always the std::string overload of communicate (a string literal binds to the (const void*, size_t, uint64_t) overload)",
                  "communicate timeouts are exercised only with a child that keeps stdout open",
